@@ -83,10 +83,12 @@
   EXACTLY ONE single-step statement is open: `DeliverVisProj` (Props/C02multiY.lean) - the `deliver` step for a set that
   holds something of `p`.  What is MISSING for it:
     (a) `.parts` answers: only the LIFT of `resp_proj_parts` to the system step (`proj_deliver_visible_parts_p`): the
-        one-partition step is enabled (`resp_enabled`), its `bpActs` depends only on the `isOwn 0` actions (a lemma
-        like `bpActsN_mixed` for `bpActs`, not written), `bpActsN_mixed` for the N-side with offsets `base p`
-        (`projPend`), `(projV p (.parts v)).toResp = .verdicts (fun _ => bvOf (v p)) [] []`, and `BRp` rebuilt with
-        `brp_mk`.  Not written.
+        one-partition step is enabled (`resp_enabled`), its `bpActs` reads the outcome-bearing actions only
+        (Props/C02multiV4.lean `bpActs_filter_out`, PROVED; still needed: on the one-partition worker every
+        outcome-bearing action is of partition 0, so `isOut` and `isOwn 0` select the same actions),
+        `bpActsN_mixed` for the N-side with offsets `base p` (`projPend`),
+        `projV_parts_toResp_eq` (Props/C02multiV4.lean, PROVED), and `BRp` rebuilt with `brp_mk`.  The lift itself
+        is not written.
     (b) `.conn` answers for a visible set (all messages of `p` in the set and in the buffer re-queued or expired,
         `closing` set, re-check of a held message of `p`): not started, at either level.
   Also not established: that the one-partition run exhibited by `ProjSim_partial` satisfies `splitOKs` (it is a
